@@ -199,11 +199,14 @@ def check(case):
         objs = {"x": b.scalars["x"], "y": b.scalars["y"], "z": b.scalars["z"], "w10": b.scalars["w10"], "v": b.vectors["v"]}
         P = Problem()
         solves, changed_between, last_solve_obs, edits_since = 0, False, None, []
+        obj_cache = {}
         populated = set()
         for i, step in enumerate(case["steps"]):
             k = step[0]
             if k in ("minimize", "maximize"):
-                (P.minimize if k == "minimize" else P.maximize)(b.ev(OBJECTIVES[step[1]]))
+                if step[1] not in obj_cache:
+                    obj_cache[step[1]] = b.ev(OBJECTIVES[step[1]])  # the SAME expression object when an objective comes back
+                (P.minimize if k == "minimize" else P.maximize)(obj_cache[step[1]])
                 state.obj, state.sense = step[1], k
                 edits_since.append(k)
             elif k == "subject_to":
